@@ -364,6 +364,58 @@ def oracle(run, deep):
                 found.add(key)
                 report_violation(run, "oracle", t, why)
     run.note("oracle: %d further texts checked against the predicate" % n)
+    # unterminated string literals followed by long backslash runs (a token regex whose alternatives overlap on the
+    # backslash backtracks exponentially exactly here)
+    for q in "'\"`":
+        for k in (24, 32, 40, 48, 64, 80, 200):
+            for t in ("$.p = %sC:%s" % (q, "\\" * k), "%s%s" % (q, "\\" * k), "f(%sa%s, 1)" % (q, "\\" * (k + 1))):
+                out = lc.run_engine(t)
+                run.count("oracle:backslash-run:" + out[0])
+                why = predicate(t, out)
+                if why and "backslash" not in found:
+                    found.add("backslash")
+                    report_violation(run, "oracle", t, why)
+    overlapping_parses(run, found)
+
+
+def overlapping_parses(run, found):
+    """engine(text) called while another parse of the SAME engine is between two token fetches (what a thread switch
+    does): each call must still end in a statement or a YAQL parsing error whose position lies inside ITS OWN text."""
+    import ply.lex
+    eng = lc.engine()
+    short = ["1 + 2 + 3", "a.b", "f(1, 2)", "'ab' + 1", "[1, 2]", "x +", "1 2", "$"]
+    long_bad = ["%s + #" % " + ".join(["12345"] * 12), "f(%s, ?" % ", ".join(["'some long text'"] * 6),
+                "%s 'unterminated" % ("x + " * 20), "(" * 40 + "1" + ")" * 39 + " @"]
+    orig = ply.lex.Lexer.token
+    for a in short:
+        for b in long_bad + short:
+            for at in (1, 2, 3):
+                state = {"n": 0, "inner": False}
+
+                def token(lexer, state=state, b=b, at=at):
+                    if not state["inner"]:
+                        state["n"] += 1
+                        if state["n"] == at + 1:
+                            state["inner"] = True
+                            try:
+                                eng(b)
+                            except Exception:
+                                pass
+                            state["inner"] = "done"
+                    return orig(lexer)
+                ply.lex.Lexer.token = token
+                try:
+                    out = lc.run_engine(a)
+                finally:
+                    ply.lex.Lexer.token = orig
+                run.case(("overlap", a, b, at), nontrivial=True)
+                run.count("oracle:overlap:" + out[0])
+                why = predicate(a, out)
+                if why and "overlap" not in found:
+                    found.add("overlap")
+                    run.fail("violation", "C03 predicate fails for a parse that overlaps another parse on the same engine: %s" % why,
+                             {"text": a, "other_text_parsed_in_between": b, "after_fetch": at, "observed": repr(out[:2])})
+                    return
 
 
 def load_corpus():
